@@ -159,6 +159,11 @@ RULE_LOOP = _RuleLoop(_rule_inv, _rule_havoc, props="C12,C06", label="elements",
                       allowed=lambda w: w[0] == "region" and w[2] == "_value")
 
 
+def numbers_only(arr, n):
+    jn = z3.Int("jn")
+    return forall(jn, implies(in_range(jn, n), z3.Or(smt.is_real(z3.Select(arr, jn)), smt.is_int(z3.Select(arr, jn)))), patterns=[z3.Select(arr, jn)])
+
+
 def _writes_havoc(ctx):
     ctx.ghost["E"].fields["_value"] = ctx.interp.fresh("val_mid", A_IV)
 
@@ -255,6 +260,9 @@ def task_c12_new_vector(msg_cls_name, target_kind, fmt=None):
             run.assume(mname.term != bystander["name"].term)
         msg.fields.update(device=drv.fields["_name"], name=mname, timestamp=None, children=RSeq(C, None, "list", "children"))
         I.ghost.update(E=v["E"], C=C, n=v["n"], val0=v["val0"], rule=v["rule"])
+        if target_kind == "number" and not other:
+            run.assume(numbers_only(v["val0"], v["n"]))         # type invariant of a number property (precondition)
+            I.ghost["writes_inv"] = lambda ctx: [("C12,C06:number-elements-hold-numbers", numbers_only(ctx.ghost["E"].fields["_value"], ctx.ghost["n"]))]
         if target_kind == "switch":
             # the switch vocabulary invariant (established by C09)
             j = z3.Int("j")
@@ -283,6 +291,9 @@ def task_c12_new_vector(msg_cls_name, target_kind, fmt=None):
         run.oblige("C12|message_from_client[%s]/other-properties-unchanged" % label, z3.BoolVal(bystander["E"].fields["_value"] is by0))
         if other:
             run.oblige("C12|message_from_client[%s]/unknown-property-changes-nothing" % label, z3.BoolVal(v["E"].fields["_value"] is v["val0"]))
+        if target_kind == "number" and not other:
+            # an absent or unparsable number text is ignored: the elements of a number property stay numbers (carried by the loop invariant)
+            run.oblige("C12,C06|message_from_client[%s]/number-elements-stay-numbers(absent-or-unparsable-text-is-ignored)" % label, numbers_only(v["E"].fields["_value"], v["n"]))
         if msg_cls_name.lower() == "new%svector" % target_kind:
             # (a valid write must be possible: guards against a vacuous harness; for the success path the array object changed)
             run.canary("C12|canary[%s]/nothing-is-ever-written" % label, z3.BoolVal(v["E"].fields["_value"] is v["val0"]))
